@@ -4,14 +4,42 @@
     E <value>        →  <hex of encV value>
     D <hex>          →  ok <value> <rest length>   |  fail        (Value.decode)
     W <value>        →  1 | 0                                      (wfV: in the scope of the theorems)
+    A m|im|l <script> →  ok <hex of the final object's encoding> <final object> <out₁;out₂;…>
+                         (Golib.Value.Api: a history of exported calls on ONE MapValue / IntMapValue /
+                          ListValue; the script is itself a value, see Api.lean; an output is a value or ~)
+    R <hex>          →  ok <map> <rest length> | nil <rest length> | fail     (decMapValue = ReadMapValue)
 
   <value> is the one-line form of Golib.Value.Line.
 -/
 import Golib.Value.Line
 import Golib.Value.WF
+import Golib.Value.Api
 import Driver.Common
 
 open Value Drv
+
+def showOut : Option Value → String
+  | none => "~"
+  | some v => Line.showV v
+
+def showRes (v : Value) (outs : List (Option Value)) : String :=
+  s!"ok {hexOf (encV v)} {Line.showV v} {";".intercalate (outs.map showOut)}"
+
+def runScript (kind : String) (sv : Value) : String :=
+  match kind with
+  | "m" =>
+    match readScript (readMOp keyB entB) sv with
+    | some ops => let res := MOp.run [] ops []; showRes (.map res.1) res.2
+    | none => "bad-op"
+  | "im" =>
+    match readScript (readMOp keyI entI) sv with
+    | some ops => let res := MOp.run [] ops []; showRes (.imap res.1) res.2
+    | none => "bad-op"
+  | "l" =>
+    match readScript readLOp sv with
+    | some ops => let res := LOp.run [] ops []; showRes (.list res.1) res.2
+    | none => "bad-op"
+  | _ => "bad-op"
 
 def answer (line : String) : String :=
   match line.splitOn " " with
@@ -29,6 +57,18 @@ def answer (line : String) : String :=
   | ["W", v] =>
     match Line.readV v with
     | some v => if wfV v then "1" else "0"
+    | none => "bad-op"
+  | ["A", kind, script] =>
+    match Line.readV script with
+    | some sv => runScript kind sv
+    | none => "bad-op"
+  | ["R", hex] =>
+    match ofHex hex with
+    | some bs =>
+      match decMapValue bs with
+      | some (some kvs, rest) => s!"ok {Line.showV (.map kvs)} {rest.length}"
+      | some (none, rest) => s!"nil {rest.length}"
+      | none => "fail"
     | none => "bad-op"
   | _ => "bad-op"
 
